@@ -285,10 +285,19 @@ def L7_builtins(ctx, rid, core):
                     if tgt:
                         from_t[l] = tgt[0]
     allf = core.hir_fn(CORE + "functions::BuiltInFunction::all")
-    listed = [H.last(x["res"]["def"]) for x in H.walk(allf["body"]) if H.kind(x) == "Path" and (x["res"].get("def") or "").startswith(CORE + "functions::BuiltInFunction::") and x["res"].get("dk") == "Ctor"]
+    # the list may be a literal vector in all() or a named constant table that all() copies
+    bodies_ = [allf["body"]]
+    for x in H.walk(allf["body"]):
+        if H.kind(x) == "Path" and (x.get("res") or {}).get("dk") in ("Const", "Static", "AssocConst"):
+            st_ = core.statics.get(x["res"].get("def"))
+            if st_ is not None and st_.get("body") is not None:
+                bodies_.append(st_["body"])
+    listed = [H.last(x["res"]["def"]) for b_ in bodies_ for x in H.walk(b_) if H.kind(x) == "Path" and (x["res"].get("def") or "").startswith(CORE + "functions::BuiltInFunction::") and x["res"].get("dk") in ("Ctor", "Variant")]
     for v in variants:
         nm = sorted(name_t.get(v, []))
         ok = len(nm) == 1 and from_t.get(nm[0]) == v and listed.count(v) == 1
+        if not ok and (not listed or not from_t or not name_t):
+            ok = None   # a table was not read at all (restructured): nothing is known about this variant
         ctx.inst(rid, v, ok, "name() = %s, from_ident(%s) = %s, listed in all(): %d" % (nm, nm, from_t.get(nm[0]) if nm else None, listed.count(v)), None)
     extra = sorted(set(from_t.values()) - set(variants))
     dup = sorted(k for k in from_t if list(name_t.get(from_t[k], []))[:1] != [k])
